@@ -514,7 +514,15 @@ impl<'f, 't, 'w, W: Write> Formatter<'f, 't, 'w, W> {
         let tzabbrev = self.tm.tzabbrev.as_ref().ok_or_else(|| {
             err!("requires time zone abbreviation in broken down time")
         })?;
-        ext.write_str(Case::Upper, tzabbrev.as_str(), self.wtr)
+        // The abbreviation is written as it is. (Most abbreviations are
+        // upper case, but not all of them. For example, `ChST` in
+        // `Pacific/Guam`.) The `#` flag swaps the case, which we interpret
+        // as converting to lowercase, since upper case is the common case.
+        let default = match ext.flag {
+            Some(Flag::Swapcase) => Case::Upper,
+            _ => Case::AsIs,
+        };
+        ext.write_str(default, tzabbrev.as_str(), self.wtr)
     }
 
     /// %A
